@@ -212,16 +212,52 @@ def r4(R):
     R.instance('do_verify')
     seen = set()
 
+    # roles of the locals, by where their values come from:
+    #   recorded: `fn, start, end, sum = line.split()` of the .dat line
+    #   actual:   `sum, size = get_checksum_and_size_of_*(file, quick)`
+    rec_sum, rec_pos, act_sum, act_size = set(), set(), set(), set()
+    for a in walk_local(f.node):
+        if isinstance(a, ast.Assign) and isinstance(
+                a.targets[0], ast.Tuple) and isinstance(a.value, ast.Call) \
+                and all(isinstance(x, ast.Name) for x in a.targets[0].elts):
+            el = [x.id for x in a.targets[0].elts]
+            fnm = dotted(a.value.func)
+            if len(el) == 4 and isinstance(a.value.func, ast.Attribute) and \
+                    a.value.func.attr == 'split':
+                rec_pos |= {el[1], el[2]}
+                rec_sum.add(el[3])
+            elif len(el) == 2 and fnm and 'checksum_and_size' in fnm[-1]:
+                act_sum.add(el[0])
+                act_size.add(el[1])
+    R.require(rec_sum and act_sum and act_size,
+              'do_verify no longer reads the .dat record / the actual '
+              'checksum and size')
+    defs = b.local_defs(f)
+
+    def from_positions(e, depth=0):
+        """an expression computed from the recorded start / end"""
+        for x in ast.walk(e):
+            if isinstance(x, ast.Name):
+                if x.id in rec_pos:
+                    return True
+                if depth < 3 and x.id not in act_size | act_sum:
+                    for d in defs.get(x.id, []):
+                        if isinstance(d, ast.AST) and from_positions(
+                                d, depth + 1):
+                            return True
+        return False
+
     def classify(e):
         if isinstance(e, ast.Compare) and len(e.ops) == 1 and isinstance(
                 e.ops[0], (ast.NotEq, ast.Eq)):
-            names = {x.id for x in ast.walk(e) if isinstance(x, ast.Name)}
-            if 'size' in names and any('size' in n and n != 'size'
-                                       for n in names):
-                return 'size'
-            if any('sum' in n for n in names) and len(
-                    [n for n in names if 'sum' in n]) >= 2:
-                return 'sum'
+            sides = [e.left, e.comparators[0]]
+            for x, y in (sides, sides[::-1]):
+                if isinstance(x, ast.Name) and x.id in act_size and \
+                        from_positions(y):
+                    return 'size'
+                if isinstance(x, ast.Name) and x.id in act_sum and \
+                        isinstance(y, ast.Name) and y.id in rec_sum:
+                    return 'sum'
         return None
 
     def edge(node, st, lab, tgt):
